@@ -335,6 +335,27 @@ def r4_data_object(repo, rep):
         rep.violation('R4/single-source', st.qualname, 'self.%s not set' % fld, 'the geo_index setter no longer sets %s: aggregates use a stale array' % fld, st.loc())
       continue
     n, txt = found[fld]
+    # positions in the installed arrays / index sets are positions in the *given order*: a value that reads the argument only
+    # through membership or set operations (X[X.isin(geos)], set(geos)) is the same for every permutation of the list, so its
+    # rows follow some other order (a witness is any permutation of the argument)
+    deep_ = ctx.rd.expand(n, n.ast.value, keep=(geos,), depth=12)[0]
+    # everything the value is computed from: the definitions (of any kind) of the locals it reads, transitively
+    feeding, seen_, work_ = [deep_], set(), [(n, deep_)]
+    while work_ and len(seen_) < 60:
+      at_, ex_ = work_.pop()
+      for nm_ in {x_.id for x_ in ast.walk(ex_) if isinstance(x_, ast.Name) and isinstance(x_.ctx, ast.Load)} - {geos, st.params[0]}:
+        for d_ in ctx.rd.defs_at(at_, nm_):
+          if d_.value is not None and id(d_) not in seen_:
+            seen_.add(id(d_))
+            feeding.append(d_.value)
+            work_.append((d_.node, d_.value))
+    verdicts_ = [au.order_blind(x_, geos) for x_ in feeding]
+    all_blind = any(v_ is True for v_ in verdicts_) and not any(v_ is False for v_ in verdicts_)
+    if re.fullmatch(pat, txt) is None and all_blind and fld != '_geo_index':
+      rep.violation('R4/single-source', st.qualname, 'self.%s = %s' % (fld, txt[:100]),
+                    'self.%s is built as `%s`, which reads the given geo list only through order-insensitive operations (membership / set): its rows are in the order of the underlying table, not in the given order, so index i denotes a different geo here than in geo_index'
+                    % (fld, norm(deep_)[:120]), st.loc(n.ast))
+      continue
     rep.check_term(re.fullmatch(pat, txt) is not None, ctx.rd.expand(n, n.ast.value, keep=(geos,))[0], (geos,), 'R4/single-source', '%s is built from the setter argument in its order' % fld, st.qualname,
               'self.%s = %s' % (fld, txt[:100]), 'self.%s is `%s`: not built from the given geo list in the given order, so indices no longer refer to the same geos as the arrays'
               % (fld, txt[:80]), st.loc(n.ast))
